@@ -2,6 +2,7 @@
 from __future__ import annotations
 
 import math
+import os
 import random
 
 from simkit import core
@@ -74,10 +75,13 @@ def plan(tier: str) -> list:
     if tier == "quick":
         return [{"name": "nofault", "n": 4000, "faults": False},
                 {"name": "fault", "n": 20000, "faults": True},
-                {"name": "bundled", "n": 200, "faults": True, "bundled": True}]
+                {"name": "bundled", "n": 200, "faults": True, "bundled": True},
+                {"name": "describe", "n": 96, "faults": True,
+                 "describe": True}]
     return [{"name": "nofault", "n": 60000, "faults": False},
             {"name": "fault", "n": 400000, "faults": True},
-            {"name": "bundled", "n": 3000, "faults": True, "bundled": True}]
+            {"name": "bundled", "n": 3000, "faults": True, "bundled": True},
+            {"name": "describe", "n": 3000, "faults": True, "describe": True}]
 
 
 def warmup() -> None:
@@ -94,7 +98,10 @@ def _rf(rng: random.Random, lo: float, hi: float) -> float:
 def generate(rng: random.Random, batch: dict) -> dict:
     if batch.get("bundled"):
         return _gen_bundled(rng)
-    sd = rng.choice([1, 2, 2, 3, 4])
+    if batch.get("describe"):
+        return _gen_describe(rng, batch)
+    sd = rng.choice([1, 2, 2, 3, 4, 6] if "describe" in batch
+                    else [1, 2, 2, 3, 4])
     cd = rng.choice([1, 1, 2])
     A = [[0.0] * sd for _ in range(sd)]
     for i in range(sd):
@@ -158,6 +165,28 @@ BUNDLED = [("stuart_landau", "linear"), ("stuart_landau", "quadratic"),
            ("lorenz", "min_anns"), ("three_coupled_oscillators", "anns")]
 # ("lorenz", "cubic") is left out: with any non-zero gain the closed loop is
 # stiff (millions of RK45 steps) - slow, not non-terminating.
+
+
+def _gen_describe(rng: random.Random, batch: dict) -> dict:
+    """A System object writes its results table (System.describe_system)."""
+    while True:
+        doc = generate(rng, {**batch, "describe": False,
+                             "faults": rng.random() < 0.5})
+        sd = doc["sd"]
+        mods = [m for m in (2, 3) if sd % m == 0]
+        if mods:
+            break
+    mod = rng.choice(mods)
+    legs = doc["legs"][:3]
+    while len(legs) < 2:
+        legs.append({"s0": [_rf(rng, -1.0, 1.0) for _ in range(sd)],
+                     "test": False})
+    legs[0]["test"], legs[1]["test"] = True, False
+    in_j = rng.randint(1, sd)
+    return {**doc, "legs": legs, "use_state_dims": in_j,
+            "test_steps": min(doc["test_steps"], 50),
+            "train_steps": min(doc["train_steps"], 30),
+            "describe": {"mod": mod, "in_j": in_j}}
 
 
 def _gen_bundled(rng: random.Random) -> dict:
@@ -572,6 +601,9 @@ def execute(doc: dict) -> dict:
                               fhex(float(j_got))])
         res["states"].append(
             f"{fault['kind']}|{target}|{fault.get('bad')}|{outcome}|{sd}|{cd}")
+    if "describe" in doc and res["violation"] is None:
+        _describe(doc, res, sd, cd, controller, equations, params,
+                  test_starts, train_starts, collected, calls, call_cap)
     res["events"].append(["calls", calls["ctrl"], calls["eq"], calls["fired"]])
     if cond is not None:
         if calls["fired"] > 0:
@@ -595,6 +627,77 @@ def execute(doc: dict) -> dict:
 
 class _TooManyCalls(Exception):
     pass
+
+
+def _describe(doc, res, sd, cd, controller, equations, params, test_starts,
+              train_starts, collected, calls, call_cap) -> None:
+    """System.describe_system must write, per starting state, the figure of
+    merit, time, row count, first and last state of the same simulations that
+    multi_run_ode just delivered (and that were judged above)."""
+    import io
+    import shutil
+    from contextlib import redirect_stdout
+
+    import numpy as np
+    from moptipyapps.dynamic_control.system import System
+    d = doc["describe"]
+    mod, in_j = int(d["mod"]), int(d["in_j"])
+    if sd % mod != 0 or not test_starts or not train_starts or in_j > sd \
+            or int(doc["use_state_dims"]) != in_j:
+        return    # a shrunk document that no longer describes a System
+    name = "d" + core.digest(doc)[:10]
+    dest = os.path.join(core.WORK, "tmp", f"{name}-{os.getpid()}")
+    try:
+        system = System(name, sd, cd, mod, in_j, float(doc["gamma"]),
+                        np.array(test_starts), np.array(train_starts),
+                        int(doc["test_steps"]), float(doc["test_time"]),
+                        int(doc["train_steps"]), float(doc["train_time"]),
+                        (0, ))
+        system.equations = equations
+        calls["ctrl"] = calls["eq"] = 0
+        with redirect_stdout(io.StringIO()):
+            files = system.describe_system(None, controller, params, "r",
+                                           dest)
+        with open(files[1], encoding="utf-8") as fh:
+            lines = [ln for ln in fh.read().splitlines() if ln.strip()]
+    except _TooManyCalls:
+        core.violation(res, "no-termination:call-cap",
+                       f"describe_system: more than {call_cap} calls")
+        return
+    except Exception as exc:  # noqa: BLE001
+        core.violation(res, "describe_system-raised",
+                       f"{type(exc).__name__}: {exc}")
+        return
+    finally:
+        shutil.rmtree(dest, ignore_errors=True)
+    core.bump(res["probes"], "described_system")
+    if in_j != mod:
+        core.bump(res["probes"], "described:in_j!=plot_modulus")
+    want_head = ["figureOfMerit", "totalTime", "nSteps"] + [
+        f"start{i}" for i in range(sd)] + [f"end{i}" for i in range(sd)]
+    if not lines or lines[0].split(";") != want_head \
+            or len(lines) != 1 + len(collected):
+        core.violation(res, "results-table-shape",
+                       f"{len(lines)} lines for {len(collected)} simulations "
+                       f"or header {lines[:1]}")
+        return
+
+    def same(a: float, b: float) -> bool:
+        return a == b or (a != a and b != b)
+    for line, (index, ode, j, t) in zip(lines[1:], collected):
+        got = [float(v) for v in line.split(";")]
+        ode = np.asarray(ode)
+        want = [float(j), float(t), float(len(ode))] + [
+            float(v) for v in ode[0][:sd]] + [float(v) for v in ode[-1][:sd]]
+        if len(got) != len(want) or not all(
+                same(a, b) for a, b in zip(got, want)):
+            core.violation(
+                res, "results-table-differs-from-simulation",
+                f"describe_system row {index}: table holds {got[:3]}..., the "
+                f"simulation of that starting state gives J={j!r} (state "
+                f"dimensions in J: {in_j}) T={t!r} rows={len(ode)}")
+            return
+    res["events"].append(["described", len(lines) - 1])
 
 
 # ------------------------------------------------------------------ shrinking
